@@ -10,5 +10,6 @@ CONSTANTS
   MaxFaults = 1
   StoreMetaFirst = FALSE
   KillWaits = TRUE
+  ReplaceStaleDel = TRUE
 INVARIANT CrashNoOrphan
 CHECK_DEADLOCK FALSE
